@@ -172,7 +172,11 @@ def make(w, start, period, handler, links):
 
 def state(gen):
     src = getattr(gen, "clck_src", None)
-    return "T%d C%s" % (0 if gen._thread is None else 1, "-" if src is None else str(src))
+    th = getattr(gen, "_thread", None)
+    if not isinstance(th, FakeThread):
+        # the attribute under whatever (private) name the code uses now
+        th = next((v for v in vars(gen).values() if isinstance(v, FakeThread)), None)
+    return "T%d C%s" % (0 if th is None else 1, "-" if src is None else str(src))
 
 
 def session(w, gen, durs):
